@@ -1801,6 +1801,23 @@ def dump_cases():
         for opt in ('-x.text', '-x.empty', '-x.bss', '-x.strs', '-x.one', '-x.sixteen', '-p.text', '-p.empty', '-p.bss', '-p.strs',
                     '-p.sixteen', '-x1', '-x2', '-x3', '-p2', '-p3', '-p4', '-x0', '-p.shstrtab', '-x.shstrtab'):
             out.append({'kind': 'synth', 'opt': opt, 'what': None, 'mark': None, 'model': model, 'family': 'dump'})
+        # sections that share a name (COMDAT groups, -ffunction-sections objects), relocation sections against the first and the last of
+        # them: a dump by number is about that section, a dump by name about whichever GNU readelf picks
+        blob, offs = W.build_strtab(['c18sym'])
+        syms = W.enc_sym(cls, le, 0, 0, 0, 0, 0, 0) + W.enc_sym(cls, le, offs['c18sym'], 0, 4, 0x12, 0, 2)
+        word = 4 if cls == 32 else 8
+        rela = cls == 64
+        rel = W.enc_rel(cls, le, 4, 1, 1, 0x10 if rela else None)
+        for target in (2, 4):
+            secs = [text_sec(), sec('.dup', SHT_PROGBITS, 6, addr=0, align=4, data=bytes(range(0x41, 0x51))),
+                    sec('.dup', SHT_PROGBITS, 6, addr=0, align=4, data=bytes(range(0x61, 0x71))),
+                    sec('.dup', SHT_PROGBITS, 6, addr=0, align=4, data=b'third .dup\0' + bytes(5)),
+                    sec('.strtab', SHT_STRTAB, data=blob),
+                    sec('.symtab', SHT_SYMTAB, link=5, info=1, entsize=W.SYM_SIZE[cls], align=word, data=syms),
+                    sec('.rela.dup' if rela else '.rel.dup', SHT_RELA if rela else SHT_REL, 0x40, link=6, info=target, entsize=(3 if rela else 2) * word, align=word, data=rel)]
+            model2 = elf_model(cls, le, m, secs)
+            for opt in ('-x1', '-x2', '-x3', '-x4', '-x.dup', '-p4', '-p.dup', '-x7'):
+                out.append({'kind': 'synth', 'opt': opt, 'what': None, 'mark': None, 'model': model2, 'family': 'dump'})
     return out
 
 
